@@ -40,6 +40,7 @@ type Contract struct {
 	LoopInv  map[int][]*Clause
 	LoopDecr map[int]*Clause
 	Safe     bool
+	SafeKinds map[string]bool
 	Modular  bool // never inline at call sites even if it has no ensures
 	NoBody   bool
 	EosExit  bool
@@ -275,7 +276,15 @@ func (e *Engine) parseContractFile(file, pkgPath, data string) error {
 				cur.Unordered[n] = strings.Join(fields[2:], " ")
 			}
 		case "safe":
+			// safe            : every safety obligation of the function (and of inlined callees) is claimed
+			// safe idx,slice  : only these kinds, and only in the function's own code ("own" obligations)
 			cur.Safe = true
+			if len(fields) >= 2 {
+				cur.SafeKinds = map[string]bool{}
+				for _, k := range strings.Split(fields[1], ",") {
+					cur.SafeKinds[k] = true
+				}
+			}
 		case "modular":
 			cur.Modular = true
 		case "inline":
